@@ -6,7 +6,8 @@ set -e
 cd "$(dirname "$(readlink -f "$0")")"
 tier=${1:-thorough}
 rm -rf repo_snap harness_snap
-mkdir repo_snap && (cd /repo && git ls-files -z | xargs -0 cp --parents -t "$OLDPWD/repo_snap") && cp /repo/Cargo.lock repo_snap/
+# the committed tree of /repo (its working tree may be carrying a seeded change at this moment)
+mkdir repo_snap && git -C /repo archive HEAD | tar -x -C repo_snap && cp /repo/Cargo.lock repo_snap/
 cp -r harness harness_snap && rm -rf harness_snap/target
 sed -i "s|path = \"/repo\"|path = \"$PWD/repo_snap\"|" harness_snap/Cargo.toml
 export VERIF_HARNESS_DIR=$PWD/harness_snap VERIF_REPO_DIR=$PWD/repo_snap
